@@ -134,17 +134,30 @@ package engine
 // read IN FULL (io.ReadFull reports err == nil exactly when it filled the buffer; io.EOF means "no byte at all",
 // io.ErrUnexpectedEOF "some") and decompressed without error: a record cut short by a crash - also one cut right
 // after its header - ends the file and must not be decoded from whatever the reused buffer still holds.
+// Whatever is wrong with the tail of a log file (short header, unknown type, short body, undecodable body) ENDS THE
+// FILE (io.EOF) - it never fails the recovery of the shard - and a record whose header is complete and of a known type
+// always has its body read: no other test may drop a record the writer produced (records of any size are written).
 //@ prop C01 C07
 //@ func (*WAL).replayPhysicRecord
+//@   ghost reads int = 0
+//@   ghost hdr bool = false
 //@   ghost full bool = false
 //@   ghost decoded bool = false
+//@   ghost called bool = false
+//@   ghost cberr Iface = nil
 //@   call io.ReadFull
-//@     set full = (ret1 == nil)
+//@     set hdr = (reads == 0 ? ret1 == nil : hdr)
+//@     set full = (reads == 1 ? ret1 == nil : false)
+//@     set reads = reads + 1
 //@   call snappy.Decode
 //@     requires [decode_only_complete_body] full
 //@     set decoded = (ret1 == nil)
 //@   call callBack
 //@     requires [only_complete_records] full && decoded
+//@     set called = true
+//@     set cberr = ret0
+//@   ensures [torn_tail_ends_the_file] result1 != nil ==> result1 == io.EOF || (called && result1 == cberr)
+//@   ensures [body_always_read_after_good_header] hdr && final(writeWalType) > WriteWalUnKnownType && final(writeWalType) < WriteWalEnd ==> reads == 2
 
 // Recovery: the replayed log files are removed only after the replay returned without error AND the replayed
 // rows were flushed; the names removed are the ones the replay reported (planned in DESIGN §5 C01).
@@ -216,3 +229,23 @@ package engine
 //@     requires arg0 == last
 //@   call (*Record).MergeRecordDescend
 //@     requires arg0 == last
+
+// ================================================================ C08: LIMIT/OFFSET accounting of the per-tag-set merge
+//@ prop C08
+// The row budget of LIMIT+OFFSET counts exactly the rows appended to the result: a record that was partly consumed
+// already contributes only its remaining rows. (Counting more ends the scan early: fewer rows than LIMIT asks for,
+// depending on the batch size.)
+//@ func (*tagSetCursor).NextWithSingleItemNormal
+//@   ghost emitted int = 0
+//@   call .AppendRecForTagSet
+//@     set emitted = arg2 - arg1
+//@     frame nothing
+//@   store tagSetCursor.limitCount
+//@     requires [budget_counts_emitted_rows] val == obj.limitCount + emitted
+//@ func (*tagSetCursor).NextWithoutPreAgg
+//@   ghost emitted int = 0
+//@   call .AppendRecForTagSet
+//@     set emitted = arg2 - arg1
+//@     frame nothing
+//@   store tagSetCursor.limitCount
+//@     requires [budget_counts_emitted_rows] val == obj.limitCount + emitted
